@@ -28,6 +28,8 @@ func init() {
 		ruleCDC5(w, r)
 		ruleCDC6(w, r)  // a torn first frame is repaired, not a reason to refuse start-up
 		ruleORD2c(w, r) // the older snapshot is retired only once the compacted log is in place
+		ruleORD4(w, r)  // a refused compaction must not end a running snapshot's shadow mode
+		ruleORD9(w, r)  // a crash right after a snapshot must not lose writes that were being applied while it was taken
 	})
 	register("C14", "no acknowledged write lost to snapshot/compaction/shutdown", func(w *World, r *Report) {
 		ruleORD1(w, r)
@@ -50,6 +52,8 @@ func init() {
 		ruleCDC8(w, r) // a record the live engine journaled before rejecting the request must be inert on replay
 		ruleORDvalidate(w, r)
 		ruleEFFcomposite(w, r)
+		ruleEFFreadd(w, r)
+		ruleWEB7(w, r) // … and the same for handlers that string several engine calls together
 	})
 	register("C01", "clean restart reproduces the pre-shutdown state", func(w *World, r *Report) {
 		ruleJRN12(w, r, nil)
@@ -61,6 +65,9 @@ func init() {
 		ruleORD1(w, r)  // a write that lands between the snapshot's capture and the truncation is in neither
 		ruleORD4(w, r)  // … nor may the shadow-buffered writes be dropped
 		ruleORD9(w, r)  // … nor a write that was journaled before snapshot mode and applied after the capture
+		ruleCDC10(w, r) // edge weights and ids survive the journal unchanged
+		ruleCDC11(w, r) // index configuration durations survive the journal unchanged
+		ruleSIBnumtypes(w, r)
 	})
 }
 
@@ -76,6 +83,7 @@ func init() {
 		ruleORDdel(w, r)      // a deleted vector takes its secondary-index entries with it (text/filter hits)
 		ruleCDC8(w, r)        // … and stays deleted across a restart (tombstones reach snapshot-restored indexes)
 		ruleGRDdescent(w, r)  // live vectors stay findable when the top layer holds only tombstones
+		ruleCDC10(w, r)       // graph scope is built from whole node ids
 	})
 }
 
@@ -86,6 +94,9 @@ func init() {
 		ruleGRDlive(w, r)
 		ruleGRDalias(w, r)
 		ruleSIBsame(w, r)
+		ruleSIBnumtypes(w, r)
+		ruleSIBnumconv(w, r)
+		ruleGRDverbatimFilter(w, r)
 	})
 }
 
@@ -93,6 +104,7 @@ func init() {
 	register("C10", "edge store keeps forward and reverse views consistent and history queryable", func(w *World, r *Report) {
 		ruleSIBviews(w, r)
 		ruleCDC9(w, r)
+		ruleCDC10(w, r)
 		ruleCDC123(w, r, map[string]bool{"GLINK": true, "GUNLINK": true})
 		ruleCDC4(w, r, map[string]bool{"GLINK": true, "GUNLINK": true})
 		ruleGRDtime(w, r)
@@ -102,10 +114,12 @@ func init() {
 		ruleGRDpath(w, r)
 		ruleGRDtime(w, r)
 		ruleSIBviews(w, r) // the backward frontier and incoming scope read the reverse view: it must mirror the forward one
+		ruleCDC10(w, r)
 	})
 	register("C12", "deleting a node leaves no live edge to or from it", func(w *World, r *Report) {
 		ruleSIB4(w, r)
 		ruleSIBviews(w, r)
+		ruleCDC10(w, r) // the cascade names each neighbour by the node id it takes out of the graph id
 	})
 }
 
@@ -120,6 +134,8 @@ func init() {
 		ruleLCK8(w, r)
 		ruleLCK8b(w, r, lr)
 		ruleLCK9(w, r, lr)
+		ruleGRDbitset(w, r)  // a search that runs next to inserts must not index past its visited set
+		ruleGRDownmeta(w, r) // readers get copies of the stored metadata, never the live map
 		ruleGRDdupcheck(w, r)
 		ruleORD8b(w, r)
 		ruleGRDclosed(w, r, lr)
@@ -141,6 +157,8 @@ func init() {
 		ruleGRDdupcheck(w, r)
 		ruleORDvalidate(w, r) // a rejected compression leaves the index readable
 		ruleGRDtrained(w, r)  // a stored int8 vector is what was added, not zeros from an untrained quantizer
+		ruleGRDownarg(w, r)   // the record written is the record the caller keeps: insertion never rewrites the caller's vector
+		ruleCDC10(w, r)       // ids that contain the graph separator are read back whole
 	})
 }
 
@@ -150,6 +168,7 @@ func init() {
 		ruleGRDfusion(w, r)
 		ruleGRDorder(w, r)
 		ruleSIB1(w, r)
+		ruleWEBverbatim(w, r)
 	})
 	register("C15", "memory decay and reinforcement obey their stated laws", func(w *World, r *Report) {
 		ruleTBLmodels(w, r)
@@ -159,6 +178,8 @@ func init() {
 		ruleGRDrmw(w, r, lr)
 		ruleGRDdecayall(w, r)
 		ruleSIBmetatypes(w, r)
+		ruleGRDdecaylocal(w, r)
+		ruleUNI2(w, r)
 	})
 }
 
@@ -168,6 +189,7 @@ func init() {
 		ruleSIBroles(w, r)
 		ruleWEBauth(w, r)
 		ruleWEB4(w, r)
+		ruleWEB9(w, r)
 		ruleJRN12(w, r, func(sc sinkCall) bool {
 			return relPkg(sc.fi.Obj) == "pkg/auth" || relPkg(sc.fi.Obj) == "internal/server"
 		})
@@ -182,6 +204,8 @@ func init() {
 		ruleWEB8(w, r)
 		ruleGRDkernel(w, r) // wrong-dimension queries must come back as errors, not BLAS/index panics
 		ruleCDC8(w, r)      // a request answered 4xx after its record was journaled must stay without effect on replay
+		ruleWEB6b(w, r)
+		ruleGRDslice(w, r) // the request-driven filter parser never slices out of range
 	})
 }
 
@@ -196,6 +220,8 @@ func init() {
 		ruleGRDslot(w, r)
 		ruleGRDtrained(w, r)
 		ruleGRDtrainfull(w, r)
+		ruleGRDownarg(w, r)
+		ruleGRDfrontier(w, r)
 		lr := w.lockAnalysis()
 		ruleGRDclosed(w, r, lr)
 		ruleLCK8b(w, r, lr) // an int8 norm must not be lost to a concurrent growth of the norm array
@@ -227,6 +253,7 @@ func init() {
 		ruleEFFdet(w, r)
 		ruleGRDslice(w, r)
 		ruleGRDverbatim(w, r)
+		ruleGRDchunkloop(w, r)
 	})
 }
 
@@ -241,5 +268,6 @@ func init() {
 		ruleGRDrelink(w, r)
 		ruleGRDquerynorm(w, r)
 		ruleGRDdescent(w, r)
+		ruleGRDwiden(w, r) // the distances the graph is built and searched with
 	})
 }
